@@ -3,12 +3,28 @@ pub struct MDBShardError;
 pub type Result<T> = std::result::Result<T, MDBShardError>;
 pub enum SeekFrom { Start(u64), End(i64), Current(i64) }
 
-// Readers are stateless here: every read returns an arbitrary value (so the proof covers every input content), seeks are
-// no-ops.  What is read never matters for the byte accounting of the OUTPUT.
-pub struct VxReader { pub id: u64 }
+// Reader over a serialized shard.  What it HOLDS is the pair of header lists of its two info sections (`files`, `cas`, each up to
+// its bookend — the views of U-SHSCAN / U-SETOPWRAP); `fi` / `ci` count the block headers of each section handed out so far.
+// A header read returns the next block header of its section, or the bookend once the list is exhausted; everything else that is
+// read (entries, verification, metadata-ext, chunk entries) is an arbitrary value, so every shard content is covered.
+// ASSUMED and not modelled: that the seeks / entry reads between two header reads consume exactly one block (the input-side
+// counterpart of the output byte accounting proved here).
+// `info`: the header + footer stored in that shard (what `load_from_reader` returns for it)
+struct VxReader { files: Ghost<Seq<FileDataSequenceHeader>>, fi: Ghost<int>, cas: Ghost<Seq<CASChunkSequenceHeader>>, ci: Ghost<int>, info: Ghost<MDBShardInfo> }
+spec fn same_reader(a: VxReader, b: VxReader) -> bool { a.files@ == b.files@ && a.fi@ == b.fi@ && a.cas@ == b.cas@ && a.ci@ == b.ci@ && a.info@ == b.info@ }
 impl VxReader {
+    // std::io::Seek::rewind: back to the start of the shard
     #[verifier::external_body]
-    fn seek(&self, pos: SeekFrom) -> (r: Result<u64>) { unimplemented!() }
+    fn rewind(&mut self) -> (r: Result<()>) ensures final(self).files@ == old(self).files@ && final(self).cas@ == old(self).cas@ && final(self).info@ == old(self).info@ && final(self).fi@ == 0 && final(self).ci@ == 0 { unimplemented!() }
+    #[verifier::external_body]
+    fn seek(&mut self, pos: SeekFrom) -> (r: Result<u64>) ensures same_reader(*old(self), *final(self)) { unimplemented!() }
+}
+// the all-ones hash that marks a bookend record; block headers of a section never carry it
+uninterp spec fn bookend_hash() -> MerkleHash;
+spec fn reader_wf(r: VxReader) -> bool {
+    &&& 0 <= r.fi@ <= r.files@.len() && 0 <= r.ci@ <= r.cas@.len()
+    &&& forall|k: int| 0 <= k < r.files@.len() ==> (#[trigger] r.files@[k]).file_hash != bookend_hash() && hdr_small(r.files@[k])
+    &&& forall|k: int| 0 <= k < r.cas@.len() ==> (#[trigger] r.cas@[k]).cas_hash != bookend_hash()
 }
 
 // what a write call put into the output: 48-byte shard header, 48-byte record of the file-info section (header, entry,
@@ -17,18 +33,21 @@ impl VxReader {
 enum Kind { Hdr, File, Cas, U64, U32, Footer(MDBShardFileFooter) }
 // `limit`: capacity of the writer in records — a write that would exceed it fails.  (Environment assumption that bounds the
 // output; needed for the u32 index counters and the u64 offsets, see the contract's precondition.)
-struct VxWriter { pub log: Ghost<Seq<Kind>>, pub limit: Ghost<nat> }
+// `fhdrs` / `chdrs`: the block headers (bookends excluded) written to the file-info / CAS section, in order
+struct VxWriter { log: Ghost<Seq<Kind>>, limit: Ghost<nat>, fhdrs: Ghost<Seq<FileDataSequenceHeader>>, chdrs: Ghost<Seq<CASChunkSequenceHeader>> }
 spec fn wrote(old_w: VxWriter, new_w: VxWriter, k: Kind) -> bool {
     new_w.log@ == old_w.log@.push(k) && new_w.limit@ == old_w.limit@ && new_w.log@.len() <= new_w.limit@
 }
+// a write that is not a block header leaves the header logs alone
+spec fn same_hdrs(old_w: VxWriter, new_w: VxWriter) -> bool { new_w.fhdrs@ == old_w.fhdrs@ && new_w.chdrs@ == old_w.chdrs@ }
 
 #[verifier::external_body]
 fn write_u64(writer: &mut VxWriter, v: u64) -> (r: Result<()>)
-    ensures final(writer).limit@ == old(writer).limit@, r is Ok ==> wrote(*old(writer), *final(writer), Kind::U64)
+    ensures final(writer).limit@ == old(writer).limit@, same_hdrs(*old(writer), *final(writer)), r is Ok ==> wrote(*old(writer), *final(writer), Kind::U64)
 { unimplemented!() }
 #[verifier::external_body]
 fn write_u32(writer: &mut VxWriter, v: u32) -> (r: Result<()>)
-    ensures final(writer).limit@ == old(writer).limit@, r is Ok ==> wrote(*old(writer), *final(writer), Kind::U32)
+    ensures final(writer).limit@ == old(writer).limit@, same_hdrs(*old(writer), *final(writer)), r is Ok ==> wrote(*old(writer), *final(writer), Kind::U32)
 { unimplemented!() }
 #[verifier::external_body]
 fn truncate_hash(hash: &MerkleHash) -> (r: u64) { unimplemented!() }
@@ -42,7 +61,7 @@ impl MDBShardFileHeader {
     // writes tag (32) + version (8) + footer_size (8) and returns size_of::<Self>() = 48
     #[verifier::external_body]
     fn serialize(&self, writer: &mut VxWriter) -> (r: Result<usize>)
-        ensures final(writer).limit@ == old(writer).limit@, r matches Ok(n) ==> n == 48 && wrote(*old(writer), *final(writer), Kind::Hdr)
+        ensures final(writer).limit@ == old(writer).limit@, same_hdrs(*old(writer), *final(writer)), r matches Ok(n) ==> n == 48 && wrote(*old(writer), *final(writer), Kind::Hdr)
     { unimplemented!() }
 }
 impl MDBShardFileFooter {
@@ -51,7 +70,7 @@ impl MDBShardFileFooter {
     fn default() -> (r: Self) ensures r.materialized_bytes == 0, r.stored_bytes == 0, r.stored_bytes_on_disk == 0 { unimplemented!() }
     #[verifier::external_body]
     fn serialize(&self, writer: &mut VxWriter) -> (r: Result<usize>)
-        ensures final(writer).limit@ == old(writer).limit@, r is Ok ==> wrote(*old(writer), *final(writer), Kind::Footer(*self))
+        ensures final(writer).limit@ == old(writer).limit@, same_hdrs(*old(writer), *final(writer)), r is Ok ==> wrote(*old(writer), *final(writer), Kind::Footer(*self))
     { unimplemented!() }
 }
 
@@ -59,19 +78,32 @@ impl MDBShardFileFooter {
 spec fn hdr_small(h: FileDataSequenceHeader) -> bool { h.num_entries <= 0x7FFF_FFFF }
 impl FileDataSequenceHeader {
     #[verifier::external_body]
-    fn deserialize(reader: &VxReader) -> (r: Result<Self>) ensures r matches Ok(h) ==> hdr_small(h) { unimplemented!() }
+    // the next block header of the file section, or the bookend once all have been handed out
+    #[verifier::external_body]
+    fn deserialize(reader: &mut VxReader) -> (r: Result<Self>)
+        requires reader_wf(*old(reader)),
+        ensures
+            final(reader).files@ == old(reader).files@ && final(reader).cas@ == old(reader).cas@ && final(reader).ci@ == old(reader).ci@ && final(reader).info@ == old(reader).info@,
+            r matches Ok(h) ==> hdr_small(h) && (if old(reader).fi@ < old(reader).files@.len() { h == old(reader).files@[old(reader).fi@] && final(reader).fi@ == old(reader).fi@ + 1 }
+                else { h.file_hash == bookend_hash() && final(reader).fi@ == old(reader).fi@ }),
+            r is Err ==> final(reader).fi@ == old(reader).fi@,
+    { unimplemented!() }
+    // a block header (not the bookend) is recorded in `fhdrs`
     #[verifier::external_body]
     fn serialize(&self, writer: &mut VxWriter) -> (r: Result<usize>)
-        ensures final(writer).limit@ == old(writer).limit@, r matches Ok(n) ==> n == 48 && wrote(*old(writer), *final(writer), Kind::File)
+        ensures final(writer).limit@ == old(writer).limit@, final(writer).chdrs@ == old(writer).chdrs@,
+            r matches Ok(n) ==> n == 48 && wrote(*old(writer), *final(writer), Kind::File)
+                && final(writer).fhdrs@ == (if self.file_hash != bookend_hash() { old(writer).fhdrs@.push(*self) } else { old(writer).fhdrs@ }),
+            r is Err ==> final(writer).fhdrs@ == old(writer).fhdrs@,
     { unimplemented!() }
     #[verifier::external_body]
-    fn bookend() -> (r: Self) { unimplemented!() }
+    fn bookend() -> (r: Self) ensures r.file_hash == bookend_hash() { unimplemented!() }
     #[verifier::external_body]
-    fn is_bookend(&self) -> (r: bool) { unimplemented!() }
+    fn is_bookend(&self) -> (r: bool) ensures r == (self.file_hash == bookend_hash()) { unimplemented!() }
     // contract proved for the real function in U-SETOPS (instance I = u32)
     #[verifier::external_body]
     fn new(file_hash: MerkleHash, num_entries: u32, contains_verification: bool, contains_metadata_ext: bool) -> (r: Self)
-        ensures r.file_hash == file_hash, r.num_entries == num_entries,
+        ensures r.file_hash == file_hash, r.num_entries == num_entries, r._unused == 0,   // (`_unused: 0` outside cfg(test))
             r.file_flags == (MDB_DEFAULT_FILE_FLAG | (if contains_verification { MDB_FILE_FLAG_WITH_VERIFICATION } else { 0u32 })) | (if contains_metadata_ext { MDB_FILE_FLAG_WITH_METADATA_EXT } else { 0u32 }),
     { unimplemented!() }
     // the two `debug_assert_eq!`s of the real function are taken as an INPUT FACT: two records of the same file have the
@@ -83,45 +115,68 @@ impl FileDataSequenceHeader {
 }
 impl FileDataSequenceEntry {
     #[verifier::external_body]
-    fn deserialize(reader: &VxReader) -> (r: Result<Self>) { unimplemented!() }
+    fn deserialize(reader: &mut VxReader) -> (r: Result<Self>) ensures same_reader(*old(reader), *final(reader)) { unimplemented!() }
     #[verifier::external_body]
     fn serialize(&self, writer: &mut VxWriter) -> (r: Result<usize>)
-        ensures final(writer).limit@ == old(writer).limit@, r matches Ok(n) ==> n == 48 && wrote(*old(writer), *final(writer), Kind::File)
+        ensures final(writer).limit@ == old(writer).limit@, same_hdrs(*old(writer), *final(writer)), r matches Ok(n) ==> n == 48 && wrote(*old(writer), *final(writer), Kind::File)
     { unimplemented!() }
 }
 impl FileVerificationEntry {
     #[verifier::external_body]
-    fn deserialize(reader: &VxReader) -> (r: Result<Self>) { unimplemented!() }
+    fn deserialize(reader: &mut VxReader) -> (r: Result<Self>) ensures same_reader(*old(reader), *final(reader)) { unimplemented!() }
     #[verifier::external_body]
     fn serialize(&self, writer: &mut VxWriter) -> (r: Result<usize>)
-        ensures final(writer).limit@ == old(writer).limit@, r matches Ok(n) ==> n == 48 && wrote(*old(writer), *final(writer), Kind::File)
+        ensures final(writer).limit@ == old(writer).limit@, same_hdrs(*old(writer), *final(writer)), r matches Ok(n) ==> n == 48 && wrote(*old(writer), *final(writer), Kind::File)
     { unimplemented!() }
 }
 impl FileMetadataExt {
     #[verifier::external_body]
-    fn deserialize(reader: &VxReader) -> (r: Result<Self>) { unimplemented!() }
+    fn deserialize(reader: &mut VxReader) -> (r: Result<Self>) ensures same_reader(*old(reader), *final(reader)) { unimplemented!() }
     #[verifier::external_body]
     fn serialize(&self, writer: &mut VxWriter) -> (r: Result<usize>)
-        ensures final(writer).limit@ == old(writer).limit@, r matches Ok(n) ==> n == 48 && wrote(*old(writer), *final(writer), Kind::File)
+        ensures final(writer).limit@ == old(writer).limit@, same_hdrs(*old(writer), *final(writer)), r matches Ok(n) ==> n == 48 && wrote(*old(writer), *final(writer), Kind::File)
     { unimplemented!() }
 }
 impl CASChunkSequenceHeader {
     #[verifier::external_body]
-    fn deserialize(reader: &VxReader) -> (r: Result<Self>) { unimplemented!() }
-    #[verifier::external_body]
-    fn serialize(&self, writer: &mut VxWriter) -> (r: Result<usize>)
-        ensures final(writer).limit@ == old(writer).limit@, r matches Ok(n) ==> n == 48 && wrote(*old(writer), *final(writer), Kind::Cas)
+    fn deserialize(reader: &mut VxReader) -> (r: Result<Self>)
+        requires reader_wf(*old(reader)),
+        ensures
+            final(reader).files@ == old(reader).files@ && final(reader).cas@ == old(reader).cas@ && final(reader).fi@ == old(reader).fi@ && final(reader).info@ == old(reader).info@,
+            r matches Ok(h) ==> (if old(reader).ci@ < old(reader).cas@.len() { h == old(reader).cas@[old(reader).ci@] && final(reader).ci@ == old(reader).ci@ + 1 }
+                else { h.cas_hash == bookend_hash() && final(reader).ci@ == old(reader).ci@ }),
+            r is Err ==> final(reader).ci@ == old(reader).ci@,
     { unimplemented!() }
     #[verifier::external_body]
-    fn bookend() -> (r: Self) { unimplemented!() }
+    fn serialize(&self, writer: &mut VxWriter) -> (r: Result<usize>)
+        ensures final(writer).limit@ == old(writer).limit@, final(writer).fhdrs@ == old(writer).fhdrs@,
+            r matches Ok(n) ==> n == 48 && wrote(*old(writer), *final(writer), Kind::Cas)
+                && final(writer).chdrs@ == (if self.cas_hash != bookend_hash() { old(writer).chdrs@.push(*self) } else { old(writer).chdrs@ }),
+            r is Err ==> final(writer).chdrs@ == old(writer).chdrs@,
+    { unimplemented!() }
     #[verifier::external_body]
-    fn is_bookend(&self) -> (r: bool) { unimplemented!() }
+    fn bookend() -> (r: Self) ensures r.cas_hash == bookend_hash() { unimplemented!() }
+    #[verifier::external_body]
+    fn is_bookend(&self) -> (r: bool) ensures r == (self.cas_hash == bookend_hash()) { unimplemented!() }
 }
 impl CASChunkSequenceEntry {
     #[verifier::external_body]
-    fn deserialize(reader: &VxReader) -> (r: Result<Self>) { unimplemented!() }
+    fn deserialize(reader: &mut VxReader) -> (r: Result<Self>) ensures same_reader(*old(reader), *final(reader)) { unimplemented!() }
     #[verifier::external_body]
     fn serialize(&self, writer: &mut VxWriter) -> (r: Result<usize>)
-        ensures final(writer).limit@ == old(writer).limit@, r matches Ok(n) ==> n == 48 && wrote(*old(writer), *final(writer), Kind::Cas)
+        ensures final(writer).limit@ == old(writer).limit@, same_hdrs(*old(writer), *final(writer)), r matches Ok(n) ==> n == 48 && wrote(*old(writer), *final(writer), Kind::Cas)
     { unimplemented!() }
+}
+
+// std::io::copy from a rewound shard reader: the writer receives that very shard, so its block headers land in the header logs
+#[verifier::external_body]
+fn vx_io_copy(r: &mut VxReader, w: &mut VxWriter) -> (res: Result<u64>)
+    requires old(r).fi@ == 0 && old(r).ci@ == 0,
+    ensures final(r).files@ == old(r).files@ && final(r).cas@ == old(r).cas@ && final(r).info@ == old(r).info@,
+        res is Ok ==> final(w).fhdrs@ == old(w).fhdrs@ + old(r).files@ && final(w).chdrs@ == old(w).chdrs@ + old(r).cas@,
+{ unimplemented!() }
+// precondition of `set_operation`: both readers are at the start of well-formed shards and each info is the one of its reader's
+// shard (the function seeks with the section offsets of s[i] in reader r[i])
+spec fn setop_pre(s0: MDBShardInfo, r0: VxReader, s1: MDBShardInfo, r1: VxReader) -> bool {
+    reader_wf(r0) && reader_wf(r1) && r0.fi@ == 0 && r0.ci@ == 0 && r1.fi@ == 0 && r1.ci@ == 0 && s0 == r0.info@ && s1 == r1.info@
 }
